@@ -14,7 +14,7 @@ type filterRuleList struct {
 }
 
 // exclude.c:add_rule
-func (l *filterRuleList) addRule(fr *filterRule) {
+func (l *filterRuleList) addRule(fr *filterRule) error {
 	if strings.HasSuffix(fr.pattern, "/") {
 		fr.flag |= filtruleDirectory
 		fr.pattern = strings.TrimSuffix(fr.pattern, "/")
@@ -22,9 +22,13 @@ func (l *filterRuleList) addRule(fr *filterRule) {
 	if strings.ContainsFunc(fr.pattern, func(r rune) bool {
 		return r == '*' || r == '[' || r == '?'
 	}) {
-		fr.flag |= filtruleWild
+		// Matching wildcard rules is not implemented. Refuse the rule
+		// instead of accepting it and failing (or selecting the wrong
+		// files) later.
+		return fmt.Errorf("wildcard filter rules not yet implemented: %q", fr.pattern)
 	}
 	l.Filters = append(l.Filters, fr)
+	return nil
 }
 
 // exclude.c:check_filter
@@ -63,7 +67,9 @@ func RecvFilterList(c *rsyncwire.Conn) (*filterRuleList, error) {
 		if err != nil {
 			return nil, err
 		}
-		l.addRule(fr)
+		if err := l.addRule(fr); err != nil {
+			return nil, err
+		}
 	}
 	return &l, nil
 }
